@@ -664,6 +664,8 @@ def finish(ctx, proof_info, coverage, violations, assumptions, level="proof", tr
     cov["proof_build_ok"] = proof_info.get("build_ok", False)
     if "coqchk" in proof_info:
         cov["coqchk"] = proof_info["coqchk"]
+    if getattr(ctx, "notes", None):
+        cov["driver_notes"] = list(ctx.notes)  # harness re-bindings, parameter refresh problems
     if "broken_at" in proof_info:
         cov["proof_broken_at"] = proof_info["broken_at"]
     ev = {"property_id": ctx.pid, "tier": ctx.tier, "seed": ctx.seed, "level": level, "coverage": cov,
